@@ -533,7 +533,38 @@ func ruleC15Seq(p *Prog, r *Result) {
 	nilList := selectPaths(pr.paths, func(pa *Path) bool {
 		return guardPol(pa, "kind", dstP, "list") == 1 && guardPol(pa, "kind", srcP, "list") == 1 && pa.End == "return" && isSuccess(pa) && pa.Results[0].IsNil()
 	})
-	pr.all("list x list: an empty difference implies equal sequences", nilList, "the nil result is guarded by a positional or whole-list equality", func(pa *Path) (bool, string) {
+	// one obligation per place the empty difference is decided at, named by the passes completed before it
+	// (so that a recorded finding about one of them does not cover a new one)
+	groups := map[string][]*Path{}
+	for _, pa := range nilList {
+		done := map[string]bool{}
+		for _, g := range pa.Guards {
+			if g.Kind == "itermore" && g.Neg && g.A != nil {
+				for n := range rootParams(g.A) {
+					done[n] = true
+				}
+			}
+		}
+		sig := "decided before any pass over the lists"
+		if len(done) > 0 {
+			sig = "decided after the passes over " + strings.Join(sortedBoolKeys(done), ", ")
+		}
+		groups[sig] = append(groups[sig], pa)
+	}
+	if len(groups) == 0 {
+		groups[""] = nil
+	}
+	for _, sig := range sortedKeys(groups) {
+		construct := "list x list: an empty difference implies equal sequences"
+		if sig != "" && sig != "decided after the passes over dst, src" {
+			construct += " (" + sig + ")"
+		}
+		ruleC15SeqGroup(pr, construct, groups[sig], dstP, srcP)
+	}
+}
+
+func ruleC15SeqGroup(pr *psRule, construct string, nilList []*Path, dstP, srcP TM) {
+	pr.all(construct, nilList, "the nil result is guarded by a positional or whole-list equality", func(pa *Path) (bool, string) {
 		for _, g := range pa.Guards {
 			if g.Neg {
 				continue
